@@ -124,11 +124,11 @@ func c16P(w *caseWriter, fnS, namesS, opts, ret, rawhex string) {
 						continue
 					}
 					seenE[e] = true
-					pv, ok := oracleDecode(xs[i], false, e)
+					pv, ok := oracleDecode(xs[i], true, e) // strictness applies at every depth
 					ents = append(ents, fmt.Sprintf("e|%s|%s|%s", ts, hexf(e), ansOf(pv, ok, false)))
 				}
 			}
-			oracle = strings.Join(ents, ";")
+			oracle = strings.Join(ents, "&")
 		}); p != "" {
 			oracle = "-"
 		}
@@ -160,7 +160,7 @@ func parseTargets(s string, keyed bool) []target {
 		if f == "-" {
 			tg.nil_ = true
 		} else {
-			i := strings.IndexByte(f, '~')
+			i := strings.LastIndexByte(f, '~')
 			tg.t = parseType(f[:i])
 			tg.cur = unhexf(f[i+1:])
 		}
@@ -263,7 +263,7 @@ func c16A(w *caseWriter, mode, targetsS, rawhex string) {
 	}
 	oracle := "-"
 	if len(ents) > 0 {
-		oracle = strings.Join(ents, ";")
+		oracle = strings.Join(ents, "&")
 	}
 	w.line("A", mode, targetsS, rawhex, view.String(), oracle, obs)
 }
@@ -304,7 +304,7 @@ func c16a(w *caseWriter, targetsS string) {
 	}
 	oracle := "-"
 	if len(ents) > 0 {
-		oracle = strings.Join(ents, ";")
+		oracle = strings.Join(ents, "&")
 	}
 	w.line("a", targetsS, oracle, obs)
 }
@@ -362,7 +362,7 @@ func c16O(w *caseWriter, mode, targetsS, rawhex string) {
 	}
 	oracle := "-"
 	if len(ents) > 0 {
-		oracle = strings.Join(ents, ";")
+		oracle = strings.Join(ents, "&")
 	}
 	w.line("O", mode, targetsS, rawhex, view.String(), oracle, obs)
 }
@@ -557,7 +557,12 @@ func genTarget(r *rng) target {
 	if t.k == 'a' {
 		cur = "null"
 	}
-	return target{t: t, cur: cur}
+	// the current value is written in its canonical encoding
+	tg := target{t: t, cur: cur}
+	if p := guard(func() { tg.cur = encValue(newVar(tg).Elem()) }); p != "" {
+		return target{nil_: true}
+	}
+	return tg
 }
 
 func eltFor(r *rng, t target) string {
